@@ -3,6 +3,8 @@ CONSTANTS
   Root = "koordinator-root-quota"
   Dims = {"cpu", "memory"}
   CheckFigures = FALSE
-INVARIANT NeverAboveMax
+\* property invariants are listed as CONSTRAINTs (before Report): a recorded state that violates one is not
+\* explored further, so its segment never reaches SegDone (= rejected) while TLC goes on with the other segments
+CONSTRAINT NeverAboveMax
 CONSTRAINT Report
 CHECK_DEADLOCK FALSE
